@@ -132,6 +132,9 @@ def relaxed(scn):
         return "time-chunked"
     if scn.get("secondary_chunks"):
         return "misaligned-secondary"
+    core = scn["params"].get("dimension")
+    if core in ("y", "x") and len(scn["chunks"][core]) > 1:
+        return "core-dim-chunked"  # the kernel's core dimension is split: equal-or-raise, like time
     return None
 
 
